@@ -135,7 +135,8 @@ func execScript(c *core.Ctx, w *drv.World, script []scriptOp) [][]string {
 					err = wb.Delete(append([]byte{}, s.Key...))
 					last = append(last, kv{string(s.Key), model.Ver{Del: true}})
 				} else {
-					tok := fmt.Sprintf("wb%d.%d", len(logs), j)
+					tok := w.Tok("wb")
+					_ = j
 					e := badger.NewEntry(append([]byte{}, s.Key...), gen.Expand(tok, s.Len))
 					v := model.Ver{Token: tok, Len: s.Len, UserMeta: s.Meta, ExpiresAt: s.Expires}
 					if s.Meta != 0 {
